@@ -12,7 +12,9 @@ PROP = [('InverseMatcher returned','C01'),('RequireMatcher.skip_to_quality','C05
  ('DisjunctionMaxMatcher quality methods','C12'),('span matchers','C11'),('ArrayUnionMatcher did not implement reset','C11'),
  ('MultiMatcher claimed block-quality','C12'),('DisjunctionMaxMatcher.skip_to_quality() asked','C12'),('DFree weighting','C09'),
  ('additive matchers skipped','C12'),('AndNotMatcher._find_next','C12'),('Searcher.refresh() resurrected','C03'),
- ('Searcher.refresh() kept showing','C03'),('never reported up_to_date','C03'),('kept the old generation','C03')]
+ ('Searcher.refresh() kept showing','C03'),('never reported up_to_date','C03'),('kept the old generation','C03'),('RamStorage index blocked','C04'),('And([Every(), q])','C15'),('And([NullQuery, q])','C15'),
+ ('Not(NullQuery)','C15'),('FuzzyTerm.simplify','C15'),('simplify() of AndNot','C15'),('flattening a boosted compound','C15'),
+ ('DisjunctionMax.normalize()','C15')]
 log = subprocess.check_output(['git','-C','/repo','log','--reverse','--format=%h|%s','173ed2e..HEAD']).decode().strip().split('\n')
 p = '/verif/known_findings.json'
 d = json.load(open(p))
